@@ -56,6 +56,7 @@ struct Case {
     std::vector<std::string> witPlace;
     std::vector<Sched> scheds;
     std::vector<double> reports;     // ascending chunk ends in (t0, T], last == T
+    bool wide = false;     // "wide window" regime: every internal step is shorter than the localisation requirement of every witness
     int exclZeroDir = 0, exclPassReq = 0;   // placements turned into random ones because of a listed CPodes finding
     bool cpodes() const { return integ >= 8; }
 };
@@ -87,6 +88,12 @@ Case decode(const pbt::Tape& t, bool knownZeroDir, bool knownPassReq) {
     c.T = std::max(0.3, std::min(2.5, g.real(0.3, 2.5)));
     { uint32_t w = g.w(); c.t0 = (w & 1) ? 3.0 * ((w >> 1) / 2147483648.0) : 0.0; }
     { static const double ts[] = {0.1, 1.0, 0.01}; c.timescale = ts[g.pick(3)]; }
+    // "wide window" regime (1 case in 5, not CPodes): time scale 1, accuracy 1e-2, required windows 1..5 and a step bound of
+    // 2..8e-3, so accuracy*timescale*window >= 1e-2 exceeds every internal step: events are "already localised" when detected and
+    // the only thing that keeps a pending report out of the window is the integrator's own report-time split. Reports/reporter times
+    // are also placed a fraction of a step away from crossings (placement "near") so that report and crossing share a step.
+    { pbt::Reader g2(t[0]); g2.skip(15); uint32_t w = g2.w(); c.wide = (w % 5 == 1) && !c.cpodes();
+      if (c.wide) { c.timescale = 1.0; c.accSet = true; c.acc = 1e-2; c.interp = true; c.stepCtl = ((w >> 4) & 1) ? 2 : 1; c.h = 2e-3 * (1 + ((w >> 5) % 4)); c.T = std::min(c.T, 0.3 + 0.7 * ((w >> 8) % 8) / 8.0); } }
     c.T += c.t0;
     if (c.cpodes()) { c.interp = true; c.finalSet = false; }       // the CPodes final-time / no-interpolation deviations are C19's known findings
     // system: one complex pair, one real mode, one oscillator (closed-form solution; handlers may modify q,u,z)
@@ -108,6 +115,7 @@ Case decode(const pbt::Tape& t, bool knownZeroDir, bool knownPassReq) {
             case 3: if (stepEnd) { *stepEnd = (int)(vw % 24); if (how) *how = "step-end"; return c.T + 10; } break;
             case 4: if (how) *how = "initial-time"; return c.t0;
             case 5: if (how) *how = "final-time"; return c.T;
+            case 7: if (!pool.empty()) { if (how) *how = "near"; double d = c.h * (0.1 + 0.8 * ((vw >> 8) % 1024) / 1024.0); return pool[vw % pool.size()] + ((vw >> 20) & 1 ? d : -d); } break;
             default: break;
         }
         if (how) *how = "random";
@@ -133,6 +141,7 @@ Case decode(const pbt::Tape& t, bool knownZeroDir, bool knownPassReq) {
             w.stage = r.pick(5);
             { uint32_t ow = r.w(); w.omega = 2.0 + 10.0 * ((ow >> 1) / 2147483648.0); if (ow & 1) w.omega = -w.omega; }
             Action a = decodeAction(r); if (w.reporter) a = Action();
+            if (c.wide) w.window = 1.0 + (int)(w.window * 1e4) % 5;
             if (c.cpodes()) w.window = std::max(w.window, 1e-2);   // CPodes localises with its own tolerance 100 eps (|t|+|h|) and ignores the requested window
             c.wits.push_back(w); c.witAct.push_back(a); c.witStepEnd.push_back(se); c.witPlace.push_back(how);
             if (se < 0 && w.c >= c.t0 && w.c <= c.T && !(c.cpodes() && knownPassReq)) pool.push_back(w.c);   // (CPodes + listed finding: no later request/scheduled time is put on a crossing)
@@ -378,6 +387,7 @@ bool runDirect(const Case& c, Sim& S, Judge& J, pbt::Ctx& ctx, bool on, std::vec
     double aStart = integ.getAdvancedTime();   // start of the internal step being observed
     bool stepOpen = false;                      // an internal step (aStart, aEnd] completed but not yet classified (event / no event)
     double aEnd = aStart, t1r = aStart; double prevHigh = -Inf; double tPrev = integ.getTime();
+    double reportAtStep = Inf;                  // the report time the integrator was given in the call that took the current step
     long guard = 0; bool over = false;
     auto W = [&](size_t i, double t) { return S.wits[i].value(t); };
     for (size_t ri = 0; ri < c.reports.size() && !over; ++ri) {
@@ -414,7 +424,7 @@ bool runDirect(const Case& c, Sim& S, Judge& J, pbt::Ctx& ctx, bool on, std::vec
             // ---- internal step bookkeeping
             if (ta != taBefore) {
                 if (on && stepOpen && !cp) return J.fail("internal step ending at " + pbt::str(aEnd) + " was never reported although return-every-step is on");
-                aStart = taBefore; aEnd = ta; stepOpen = true; t1r = aStart + integ.getPreviousStepSizeTaken();
+                aStart = taBefore; aEnd = ta; stepOpen = true; t1r = aStart + integ.getPreviousStepSizeTaken(); reportAtStep = reportTime;
                 if (advOut) advOut->push_back(ta);
             }
             if (on && !J.checkState(integ.getState(), "returned state")) return false;
@@ -452,8 +462,15 @@ bool runDirect(const Case& c, Sim& S, Judge& J, pbt::Ctx& ctx, bool on, std::vec
                         narrow = std::min(narrow, J.requiredWindow(w, std::max(t1r, tHigh) * (1 + 1e-9)));
                     }
                     if (!(tHigh - tLow <= narrow * (1 + 1e-12))) return J.fail(hd.str() + "window width " + pbt::str(tHigh - tLow) + " exceeds the localisation requirement " + pbt::str(narrow) + " = max(accuracy*timescale*window, MinWindow) of the listed events");
+                    // the report the integrator was heading for when it took and localised this step must stay outside the open window (the
+                    // source splits the localisation at tReport for exactly this purpose)
+                    if (!cp && reportAtStep > aStart && reportAtStep < t1r && (tLow == reportAtStep || tHigh == reportAtStep)) ctx.label("hit:window-split-at-pending-report");
+                    if (!cp && reportAtStep > tLow && reportAtStep < tHigh)
+                        return J.fail(hd.str() + "the window strictly contains the report time " + pbt::str(reportAtStep) + " that was pending when the step was taken: the report can only be delivered after the event (time goes backwards for the caller)");
+                    // known finding report-inside-event-window, as narrow as the finding: a LATER scheduled report (not the one pending when the
+                    // step was taken -- that one was judged just above) lies strictly inside the window
                     { double rIn = modelNext(c, true, tLow, false);
-                      if (rIn > tLow && rIn < tHigh) { ctx.label("hit:report-inside-event-window"); if (!cp && J.excl && ctx.known("report-inside-event-window")) { ctx.label("excluded:report-inside-event-window"); J.stoppedKnown = true; return true; } } }
+                      if (rIn > tLow && rIn < tHigh) { ctx.label("hit:report-inside-event-window"); if (!cp && J.excl && rIn != reportAtStep && ctx.known("report-inside-event-window")) { ctx.label("excluded:report-inside-event-window"); J.stoppedKnown = true; return true; } } }
                     if (listed.size() >= 2) ctx.label("hit:simultaneous");
                     // completeness within this (truncated) step, for witnesses whose behaviour over the whole ODE step (aStart, t1] is unambiguous
                     if (!cp) for (size_t i = 0; i < S.wits.size(); ++i) {
@@ -615,6 +632,7 @@ void judgeCase(const Case& c, pbt::Ctx& ctx, bool excl) {
     }
     if (ctx.wantDesc) describe(c, wits, ctx);
     ctx.label(std::string("integ:") + integName(c.integ)); ctx.label(c.tsMode ? "mode:timestepper" : "mode:direct");
+    if (c.wide) ctx.label("regime:wide-window");
     if (!c.interp) ctx.label("opt:nointerp"); if (c.finalSet) ctx.label("opt:final"); if (c.stepCtl == 1) ctx.label("opt:maxstep"); if (c.stepCtl == 2) ctx.label("opt:fixedstep");
     for (auto& w : wits) { ctx.label(w.reporter ? "src:triggered-reporter" : "src:triggered-handler"); ctx.label(w.kind == Wit::Linear ? "wit:linear" : "wit:sine"); ctx.label("wit:stage" + std::to_string(w.stage)); }
     for (auto& s : c.scheds) { static const char* kn[] = {"src:list-handler", "src:periodic-handler", "src:list-reporter", "src:periodic-reporter"}; ctx.label(kn[s.kind]); }
@@ -628,7 +646,14 @@ void judgeCase(const Case& c, pbt::Ctx& ctx, bool excl) {
     // TimeStepper then either delivers that report AFTER the handler ran at tHigh (from a state interpolated across the
     // handler's change) or, if the handler modified the state, skips it. Direct mode: dynamic site (window observed, history
     // stops being judged there); TimeStepper mode: predicate over the call log and the report schedule.
-    if (excl && c.tsMode && c.interp && !c.cpodes() && J.reportInsideSomeWindow() && ctx.known("report-inside-event-window")) { ctx.label("excluded:report-inside-event-window"); return; }
+    // (TimeStepper mode cannot see windows; when the call log shows a report time just before a triggered call -- a cheap necessary
+    //  condition -- the same case is replayed in direct mode, which takes the identical steps, and the case is excluded only if that
+    //  replay reaches the narrow direct-mode site, i.e. a LATER report inside the window, not the one pending when the step was taken)
+    if (excl && c.tsMode && c.interp && !c.cpodes() && J.reportInsideSomeWindow() && ctx.isKnownListed("report-inside-event-window")) {
+        Case c2 = c; c2.tsMode = false; pbt::Ctx scratch; scratch.prop = ctx.prop; Sim S2(c2, wits); Judge J2(&scratch, c2, S2, true); double te2 = c.t0;
+        runDirect(c2, S2, J2, scratch, true, nullptr, te2);
+        if (J2.stoppedKnown && ctx.known("report-inside-event-window")) { ctx.label("excluded:report-inside-event-window"); return; }
+    }
     if (J.stoppedKnown) return;
     if (ok && J.failMsg.empty() && !J.terminated && tEnd != c.T) J.fail("run ended at t=" + pbt::str(tEnd) + " instead of the requested final time " + pbt::str(c.T));
     if (ok && J.failMsg.empty()) J.judgeLog(tEnd);
@@ -685,7 +710,7 @@ pbt::Config config() {
         addWit(k, Wit::Linear, 0.17700780777368644, 1, true, true); k.witAct[0].kind = Action::KickU; k.witAct[0].value = -1.49078;
         addWit(k, Wit::Linear, 0.17759421555992452, 1, true, true); k.wits[1].reporter = true; k.wits[1].window = 0.01;
         judgeCase(k, ctx, false); }});
-    c.requiredLabels = {"mode:direct", "mode:timestepper", "hit:trigger", "hit:simultaneous", "hit:window-ends-on-exact-zero", "hit:zero-at-step-end", "hit:trigger-placed-coincident", "hit:trigger-placed-step-end",
+    c.requiredLabels = {"mode:direct", "mode:timestepper", "hit:trigger", "hit:simultaneous", "hit:window-ends-on-exact-zero", "hit:zero-at-step-end", "hit:trigger-placed-coincident", "hit:trigger-placed-step-end", "hit:trigger-placed-near", "regime:wide-window", "hit:window-split-at-pending-report",
                         "src:triggered-reporter", "src:periodic-handler", "src:periodic-reporter", "src:list-handler", "src:list-reporter", "action:scaleZ", "action:kickU", "action:setQ", "action:setDiscrete", "hit:terminated-by-handler",
                         "integ:RungeKuttaMerson", "integ:RungeKutta3", "integ:RungeKutta2", "integ:RungeKuttaFeldberg", "integ:Verlet", "integ:ExplicitEuler", "integ:SemiExplicitEuler", "integ:SemiExplicitEuler2", "integ:CPodesBDF", "integ:CPodesAdams"};
     return c;
